@@ -80,4 +80,20 @@ def diffExact (scale h : Nat) : Nat := min ((scale * 2^64) / (max 1 h)) (2^64 - 
 /-- `Proof::scaled_difficulty(scale)`: a function of the packed nonces -/
 def scaledDifficulty (scale : Nat) (packed : Bytes) : Nat := scaledDiffU128 scale (hashPrefix packed)
 
+
+/-- `Proof::read` on a byte stream (`impl Readable for Proof`, default deserialization mode):
+`read_u8` for the edge bits, the guards, `read_fixed_bytes(pack_len)` — which fails when fewer bytes
+are left — then the nonce part.  Returns the edge bits, the nonces and the number of bytes left
+unread; `none` = any `Err` (`CorruptedData`, `UnexpectedEof` / `IOErr`). -/
+def readProofStream (ps : Nat) : Bytes → Option (Nat × List Nat × Nat)
+  | [] => none
+  | w :: rest =>
+    if w = 0 ∨ w > 63 then none
+    else if packLen w ps < 8 then none
+    else if rest.length < packLen w ps then none
+    else
+      match readProof w ps (rest.take (packLen w ps)) with
+      | none => none
+      | some ns => some (w, ns, rest.length - packLen w ps)
+
 end GV.Pow
